@@ -1,6 +1,7 @@
 package sim
 
 import (
+	"bufio"
 	"fmt"
 	"math"
 
@@ -233,6 +234,28 @@ func Persist(seg segment.Segment, sched *Sched) (data []byte, ret int64, pi *Pan
 	w := NewSimWriter(sched)
 	pi = Guard(func() { ret, err = seg.WriteTo(w, nil) })
 	return w.Buf, ret, pi, err
+}
+
+// PersistBuffered writes seg to a destination that is itself a bufio.Writer of
+// the given size over a healthy SimWriter, optionally with bytes of the caller
+// already pending in it (as when several things are written to one file). It
+// returns the bytes the segment contributed and the count WriteTo reported.
+func PersistBuffered(seg segment.Segment, size, pending int, sched *Sched) (data []byte, ret int64, pi *PanicInfo, err error) {
+	w := NewSimWriter(sched)
+	bw := bufio.NewWriterSize(w, size)
+	pre := make([]byte, pending)
+	for i := range pre {
+		pre[i] = 0xEE
+	}
+	_, _ = bw.Write(pre)
+	pi = Guard(func() { ret, err = seg.WriteTo(bw, nil) })
+	if pi == nil && err == nil {
+		err = bw.Flush()
+	}
+	if len(w.Buf) >= pending {
+		data = w.Buf[pending:]
+	}
+	return data, ret, pi, err
 }
 
 // LoadView loads an image as a mem or file view.
